@@ -159,6 +159,7 @@ def run_unit(name, keep_smt2=2):
         if want and ob.smt2:
             kept += 1
         res.solver_s += ob.time_s
+    obs = _select_alternative(obs)
     res.obligations = [_ob_dict(ob) for ob in obs]
     if res.status == "ok" and len(obs) < u.min_obligations:
         res.status, res.message = "undecided", f"vacuity guard: {len(obs)} obligations generated, at least {u.min_obligations} expected"
@@ -255,3 +256,21 @@ def real_method_fallback(relpath, classname, env, **extract_kw):
         return types.MethodType(fn, self)
 
     return __getattr__
+
+
+def _select_alternative(obs):
+    """Disjunctive proof attempts: a sidecar may offer several candidate invariants for one loop through a decision whose label starts
+    with ``alt:`` (each candidate is a separate set of paths and is checked completely: establish, preserve, everything that follows).
+    The proof stands if ONE candidate discharges all of its obligations; the obligations of the other candidates are then dropped.  If
+    none does, the obligations of the first candidate are reported (so a refutation is reported against the primary invariant)."""
+    groups = {}
+    for ob in obs:
+        for lab in ob.path:
+            if lab.startswith("alt:"):
+                groups.setdefault(lab, []).append(ob)
+    if len(groups) < 2:
+        return obs
+    keys = sorted(groups)
+    winner = next((k for k in keys if all(o.verdict == "discharged" for o in groups[k])), keys[0])
+    drop = {id(o) for k in keys if k != winner for o in groups[k]}
+    return [o for o in obs if id(o) not in drop]
